@@ -575,9 +575,35 @@ def _ret_kinds(f):
     rets = [s for s in iter_stmts(f.node.body) if isinstance(s, ast.Return) and isinstance(s.value, ast.Tuple)]
     if not rets:
         return None
-    names = [u(e) for e in rets[-1].value.elts]
+    arity = {len(r.value.elts) for r in rets}
+    if len(arity) != 1:
+        return None
+
+    def expr_kind(e):
+        """kind of a returned element that is written in place (`return True, -inflation, simplex, i` next to `return inside, distance, simplex, i`)"""
+        if isinstance(e, ast.Constant):
+            return "bool" if isinstance(e.value, bool) else ("float" if isinstance(e.value, (int, float)) else None)
+        if isinstance(e, (ast.Compare, ast.BoolOp)) or (isinstance(e, ast.UnaryOp) and isinstance(e.op, ast.Not)):
+            return "bool"
+        if isinstance(e, (ast.BinOp, ast.UnaryOp)):
+            return "float"
+        return None
+    per_pos = []
+    for pos in range(arity.pop()):
+        ks = set()
+        for r in rets:
+            e = r.value.elts[pos]
+            ks.add(expr_kind(e) or ("name", u(e)))
+        per_pos.append(ks)
+    names = []
+    for pos, ks in enumerate(per_pos):
+        nm = sorted(x[1] for x in ks if isinstance(x, tuple))
+        names.append((nm[0] if nm else None, {x for x in ks if not isinstance(x, tuple)}))
     kinds = []
-    for n in names:
+    for n, lits in names:
+        if n is None:
+            kinds.append(lits.pop() if len(lits) == 1 else "mixed")
+            continue
         k = "float"
         assigns = [st for st in iter_stmts(f.node.body) if isinstance(st, ast.Assign) and any(u(t) == n for t in st.targets)]
         augs = [st for st in iter_stmts(f.node.body) if isinstance(st, ast.AugAssign) and u(st.target) == n and isinstance(st.op, ast.Add) and const(st.value) == 1]
@@ -589,6 +615,9 @@ def _ret_kinds(f):
             k = "bool"
         elif any(isinstance(st.value, ast.Call) and (call_name(st.value) or "") in ("np.empty", "np.zeros", "np.array") for st in assigns) or "." in n:
             k = "array"
+        # the same position written in place on other return paths must agree with the named one
+        if lits and lits != {k}:
+            k = "mixed"
         kinds.append(k)
     return kinds
 
